@@ -16,12 +16,15 @@
 #include "drv.h"
 
 #include <sys/uio.h>
+#include <fcntl.h>
+#include <dirent.h>
 #include <sanitizer/allocator_interface.h>
 
 #include "types.h"
 #include "meta.h"
 #include "node.h"
 #include "config.h"
+#include "output.h"
 #include "parse.h"
 
 /* ---------- allocation accounting (ASan hook; no source change) ---------- */
@@ -191,6 +194,7 @@ struct event {
 	int curr, prev;
 	uint8_t *path; size_t plen;   /* path bytes (elements + separators, without the assign byte) */
 	int sep, elems;     /* elems: path holds at least one element */
+	size_t *woff, *wlen, wn;    /* elements as a consumer gets them from mpt_path_next() */
 	uint8_t *val;  size_t vlen, vcopy;
 	int hasval;
 	long post;          /* characters stored behind the path when the event was delivered */
@@ -221,6 +225,25 @@ static int record(void *ctx, const MPT_STRUCT(path) *p, const MPT_STRUCT(value) 
 		MPT_STRUCT(path) tmp = *p;      /* mpt_path_valid() only touches the flags of the copy */
 		e->post = mpt_path_valid(&tmp);
 	}
+	{       /* walk a copy of the path the way a consumer does */
+		MPT_STRUCT(path) tmp = *p;
+		size_t cap = 8;
+		e->woff = (size_t *) malloc(cap * sizeof(size_t));
+		e->wlen = (size_t *) malloc(cap * sizeof(size_t));
+		while (tmp.len && e->wn <= e->plen + 2) {
+			size_t start = tmp.off - p->off;
+			int l = mpt_path_next(&tmp);
+			if (l < 0) break;
+			if (e->wn == cap) {
+				cap *= 2;
+				e->woff = (size_t *) realloc(e->woff, cap * sizeof(size_t));
+				e->wlen = (size_t *) realloc(e->wlen, cap * sizeof(size_t));
+			}
+			if (start > e->plen) start = e->plen;                       /* never read outside the copy */
+			if ((size_t) l > e->plen - start) l = (int) (e->plen - start);
+			e->woff[e->wn] = start; e->wlen[e->wn] = (size_t) l; e->wn++;
+		}
+	}
 	if (val) {
 		const struct iovec *vec = (const struct iovec *) val->_addr;
 		size_t take = vec->iov_len;
@@ -240,7 +263,7 @@ static int record(void *ctx, const MPT_STRUCT(path) *p, const MPT_STRUCT(value) 
 static void clear_events(void)
 {
 	size_t i;
-	for (i = 0; i < nevs; i++) { free(evs[i].path); free(evs[i].val); }
+	for (i = 0; i < nevs; i++) { free(evs[i].path); free(evs[i].val); free(evs[i].woff); free(evs[i].wlen); }
 	nevs = 0;
 }
 static const char *evname(int curr)
@@ -459,8 +482,18 @@ static void do_events(struct cmd *c)
 		j_str("e", evname(evs[i].curr));
 		j_int("r", evs[i].reads);
 		j_int("hv", evs[i].hasval);
-		/* path elements (split at the separator byte; copying only) */
+		/* path elements as mpt_path_next() delivers them */
 		j_arr_open("p");
+		{
+			size_t k;
+			for (k = 0; k < evs[i].wn; k++) {
+				j_sep();
+				j_runs_body(evs[i].path + evs[i].woff[k], evs[i].wlen[k]);
+			}
+		}
+		j_arr_close();
+		/* path elements split at the separator byte (copying only) */
+		j_arr_open("ps");
 		if (evs[i].elems) {
 			size_t k, start = 0;
 			for (k = 0; k <= evs[i].plen; k++) {
@@ -493,10 +526,126 @@ static void do_events(struct cmd *c)
 	free(fmt); free(acc); free(text);
 }
 
+static long open_fds(void)
+{
+	long n = 0;
+	int fd;
+	for (fd = 0; fd < 256; fd++) if (fcntl(fd, F_GETFD) != -1) n++;
+	return n;
+}
+/* mpt_node_parse(): FILE front end with format and name-limit descriptions, prepared target */
+static void do_nodeparse(struct cmd *c)
+{
+	MPT_STRUCT(parser_context) ctx;
+	struct source src;
+	uint8_t *fmt, *acc, *text;
+	int fmtnull, accnull = 0, ret;
+	long pre = (long) drv_int(c, "pre", 0);
+	long m0a, m0f, a0, f0, a1, f1, a2, f2, lbefore = 0, lafter = 0, nbefore, nafter, fd0, fd1;
+	char *fbefore = 0, *fafter = 0;
+	size_t fblen = 0, falen = 0, alen;
+	FILE *keep = drv_out, *in;
+	const char *araw = drv_raw(c, "acc");
+
+	setup(c, &ctx, &src, &fmt, &fmtnull, &acc, &text);
+	free(acc);
+	acc = runs_bytes(c, "acc", &alen, &accnull);
+	(void) araw;
+	m0a = acct_alloc; m0f = acct_free;
+	acct_on = 1;
+	if (pre > 0) add_marker(&root, "keep", "kv", "sub");
+	if (pre > 1) add_marker(&root, "a", "old", 0);
+	if (pre > 2) add_marker(&root, "zz", 0, "zc");
+	acct_on = 0;
+	drv_out = open_memstream(&fbefore, &fblen);
+	nbefore = flat_nodes(&root, 2000, &lbefore);
+	fclose(drv_out);
+	drv_out = keep;
+	in = fmemopen(src.len ? (void *) text : (void *) "", src.len ? src.len : 1, "r");
+	setvbuf(in, 0, _IONBF, 0);      /* no lazily allocated stdio buffer inside the accounted call */
+	if (!src.len) (void) fgetc(in);
+	fd0 = open_fds();
+	a0 = acct_alloc; f0 = acct_free;
+	acct_on = 1;
+	ret = mpt_node_parse(&root, in, fmtnull ? 0 : (const char *) fmt, accnull ? 0 : (const char *) acc, 0);
+	acct_on = 0;
+	a1 = acct_alloc; f1 = acct_free;
+	fd1 = open_fds();
+	fclose(in);
+	drv_out = open_memstream(&fafter, &falen);
+	nafter = flat_nodes(&root, 2000, &lafter);
+	fclose(drv_out);
+	drv_out = keep;
+	acct_on = 1;
+	mpt_node_clear(&root);
+	acct_on = 0;
+	a2 = acct_alloc; f2 = acct_free;
+	drv_begin(c);
+	j_str("ret", ret < 0 ? "error" : "ok");
+	j_sep(); fprintf(drv_out, "\"fbefore\":{\"cnt\":%ld,\"list\":%s}", nbefore, fbefore);
+	j_sep(); fprintf(drv_out, "\"ftree\":{\"cnt\":%ld,\"list\":%s}", nafter, fafter);
+	j_int("reads", 0);
+	j_int("len", (long long) src.len);
+	j_int("net", (a1 - a0) - (f1 - f0) + (fd1 - fd0));
+	j_int("netclear", (a2 - m0a) - (f2 - m0f) + (fd1 - fd0));
+	j_int("links", lafter);
+	drv_dbg();
+	j_int("code", ret);
+	drv_end();
+	free(fbefore); free(fafter); free(fmt); free(acc); free(text);
+}
+/* mpt_parse_folder(): files f0..fN in a fresh directory (texts t0=..tN=), recording handler */
+static void do_folder(struct cmd *c)
+{
+	char dir[] = "/tmp/C08-folder-XXXXXX";
+	char name[64];
+	int i, n = (int) drv_int(c, "n", 0), ret;
+	long a0, f0, a1, f1, fd0, fd1;
+	DIR *d;
+	if (!mkdtemp(dir)) { drv_begin(c); j_str("ret", "no-tempdir"); drv_dbg(); drv_end(); return; }
+	for (i = 0; i < n; i++) {
+		char key[16];
+		uint8_t *t; size_t tl; int tn;
+		FILE *f;
+		snprintf(key, sizeof(key), "t%d", i);
+		t = runs_bytes(c, key, &tl, &tn);
+		snprintf(name, sizeof(name), "%s/f%d", dir, i);
+		if ((f = fopen(name, "w"))) { fwrite(t, 1, tl, f); fclose(f); }
+		free(t);
+	}
+	clear_events();
+	cur_src = 0;
+	refuse_at = (int) drv_int(c, "refuse", -1);
+	d = opendir(dir);
+	fd0 = open_fds();
+	a0 = acct_alloc; f0 = acct_free;
+	acct_on = 1;
+	ret = mpt_parse_folder(d, record, 0, 0);
+	acct_on = 0;
+	a1 = acct_alloc; f1 = acct_free;
+	fd1 = open_fds();
+	if (d) closedir(d);
+	for (i = 0; i < n; i++) { snprintf(name, sizeof(name), "%s/f%d", dir, i); unlink(name); }
+	rmdir(dir);
+	drv_begin(c);
+	j_str("ret", ret < 0 ? "error" : "ok");
+	j_int("reads", 0);
+	j_int("len", 0);
+	j_int("net", (a1 - a0) - (f1 - f0));       /* live heap blocks left by the call */
+	j_int("fds", fd1 - fd0);                   /* descriptors left open by the call */
+	j_int("nev", (long long) nevs);
+	drv_dbg();
+	j_int("code", ret);
+	drv_end();
+	clear_events();
+}
+
 static void drv_step(struct cmd *c)
 {
 	if (!strcmp(c->action, "parse")) do_parse(c);
 	else if (!strcmp(c->action, "events")) do_events(c);
+	else if (!strcmp(c->action, "nodeparse")) do_nodeparse(c);
+	else if (!strcmp(c->action, "folder")) do_folder(c);
 	else {
 		drv_begin(c);
 		j_str("ret", "unknown-action");
